@@ -84,6 +84,29 @@ func VerifyFunction(p *Program, spec *Spec, fn *ssa.Function, con *Contract) (re
 		nret++
 		env := x.topEnv(st, fn.String()+" ensures")
 		sig := fn.Signature
+		// source-level locals (latest values); locals never assigned on this path are undefined values
+		pfx := fn.String() + "."
+		for n, v := range st.names {
+			if strings.HasPrefix(n, pfx) {
+				if _, clash := env.vars[n[len(pfx):]]; !clash {
+					env.vars[n[len(pfx):]] = v
+				}
+			}
+		}
+		for _, b := range fn.Blocks {
+			for _, ins := range b.Instrs {
+				if dr, ok := ins.(*ssa.DebugRef); ok {
+					if obj, ok := dr.Object().(*types.Var); ok {
+						if _, have := env.vars[obj.Name()]; !have {
+							env.vars[obj.Name()] = s.symVal("undef.local:"+obj.Name(), obj.Type())
+						}
+						if _, have := env.typs[obj.Name()]; !have {
+							env.typs[obj.Name()] = obj.Type()
+						}
+					}
+				}
+			}
+		}
 		bindResults(env, sig, results)
 		trace := strings.Join(st.trace, " ")
 		for _, w := range con.OrmPost {
